@@ -315,5 +315,5 @@ def parse_params(s):
         if "=" in p:
             k, v = p.split("=")[:2]
             k = k.strip().lower()
-            out[k] = v.strip() if k in ("label", "value") else v.strip().lower()
+            out[k] = v.strip() if k in ("label", "value", "app") else v.strip().lower()  # column names and package names are case sensitive
     return out
